@@ -248,8 +248,8 @@ PROPS["C01"] = {
     ],
 }
 PROPS["C19"] = {
-    "level_text": 'UDP source filters on the real listener loops with a harness PacketConn: server: callback runs iff the source (IPv4 / IPv4-mapped / IPv6, all bytes and port symbolic) equals the registered address; client: IP and port filter, any-port latching of the first accepted port and enforcement afterwards (two datagrams), timeout clock untouched by rejected datagrams. Interleaved session pinned to its connection: in every session state and for every method a request arriving on another connection is refused with an error and leaves the state untouched (handleRequestInner).',
-    "level_note": 'Outside: author-IP check and its side effects in Server.run / the session run loop (channels), real sockets.',
+    "level_text": 'UDP source filters on the real listener loops with a harness PacketConn: server: callback runs iff the source (IPv4 / IPv4-mapped / IPv6, all bytes and port symbolic) equals the registered address; client: IP and port filter, any-port latching of the first accepted port and enforcement afterwards (two datagrams), timeout clock untouched by rejected datagrams. Interleaved session pinned to its connection: in every session state and for every method a request arriving on another connection is refused with an error and leaves the state untouched (handleRequestInner). Author address: the REAL Server.runInner find-or-create event (sequential channel model) hands a session to a connection iff the connection IP address (4 or 16 symbolic bytes, IPv4-mapped forms identified) and zone equal those of the connection that created it; a foreign connection gets ErrServerCannotUseSessionCreatedByOtherIP and the session is not touched.',
+    "level_note": 'Outside: real sockets; what the connection does with the refusal (covered by the test suite).',
     "runs": [
         R("udp-filters", ".", "root", ["ZzC19ServerUDPFilter", "ZzC19ClientUDPFilter"], params={"GOSTUB": 1}, extras=_EXTRAS),
         R("pinned-connection", ".", "root", ["ZzC02StateGuard"], params={"GOSTUB": 1}, extras=_EXTRAS, flags={"concoff": True}),
@@ -343,8 +343,8 @@ PROPS["C12"] = {
                quick_params={"P": 13}, thorough_params={"P": 16})],
 }
 PROPS["C02"] = {
-    "level_text": "Sequential kernels on the real code: (1) ServerSession.handleRequestInner state guard: for every session state and every state-changing method the request is refused with ErrServerInvalidState (status >= 400, state untouched, application not called) exactly when (method, state) is outside the RFC 2326 table written in the harness; a request refused by validation or by the application leaves the state unchanged; a request from another connection than the pinned one is refused in every state. (2) ServerConn.handleRequestOuter: exactly one response is written per request for all eleven methods, with the request's CSeq echoed (symbolic value), 400 without CSeq. (3) UDP liveness: every UDP entry point of a session media (RTP/RTCP while recording, RTP/RTCP while playing) refreshes the session's last-packet time for arbitrary RTP bytes / any receiver report, so a peer that keeps sending media or reports is not expired by the UDP timeout check.",
-    "level_note": "Outside: request sequences (only one step from each constructed state), successful SETUP/PLAY/RECORD transitions through the stream/UDP plumbing, routing by Session header in Server.run (channels), the timers themselves, session lifetime decisions taken in the session's channel-driven run loop (e.g. closing when the last connection goes away), keep-alive by RTSP requests, exactly-once session close. Goroutines/timers are not executed (GOSTUB).",
+    "level_text": "Sequential kernels on the real code: (1) ServerSession.handleRequestInner state guard: for every session state and every state-changing method the request is refused with ErrServerInvalidState (status >= 400, state untouched, application not called) exactly when (method, state) is outside the RFC 2326 table written in the harness; a request refused by validation or by the application leaves the state unchanged; a request from another connection than the pinned one is refused in every state. (2) ServerConn.handleRequestOuter: exactly one response is written per request for all eleven methods, with the request's CSeq echoed (symbolic value), 400 without CSeq. (3) UDP liveness: every UDP entry point of a session media (RTP/RTCP while recording, RTP/RTCP while playing) refreshes the session's last-packet time for arbitrary RTP bytes / any receiver report, so a peer that keeps sending media or reports is not expired by the UDP timeout check. (4) Session lifetime decisions of the REAL run loop ServerSession.runInner (select over channels executed with the engine's sequential channel model), ONE event from an arbitrary state (state x transport x one or two attached connections x pinned or not; idle/read timeouts 1..100 s, silence 0..300 s on either path, all symbolic): an accepted TEARDOWN ends the session, unpairs the connection and is answered 200; a TEARDOWN refused because it arrives on another connection than the pinned one does NOT end it; any other request gets exactly one answer, keeps the session, carries the session id and counts as a keep-alive; the last connection going away ends the session unless it is streaming over UDP or multicast; the liveness check expires a recording session iff no packet for the read timeout and a playing one iff neither a request nor a packet for the idle timeout (one second of clock granularity allowed), and re-arms itself otherwise; a writer error ends it with that error. (5) Server.runInner, one event: a close request removes and cancels a registered session once, a stale one is ignored; an unknown session id is refused and creates nothing.",
+    "level_note": "Outside: request sequences (only one step from each constructed state), successful SETUP/PLAY/RECORD transitions through the stream/UDP plumbing, the hand-over of a request from the connection's goroutine to the session's (two goroutines: a rendezvous cannot be executed sequentially - S113), the timers themselves (the run-loop kernels start from 'the timer fired'), histories of more than one event per loop, OnSessionClose ordering in ServerSession.run. Goroutines are not executed (GOSTUB); channels are FIFO queues in a sequential model where a blocked operation ends the path (CHANMODEL) and the harness context ends the loop after one event.",
     "runs": [R("state-guard", ".", "root", ["ZzC02StateGuard", "ZzC02HandlerRefuses", "ZzC02OneResponse"], params={"GOSTUB": 1}, extras=_EXTRAS, flags={"concoff": True}),
              R("udp-keepalive", ".", "root", ["ZzC02UDPKeepAlive"], params={"GOSTUB": 1}, extras=_EXTRAS),
              R("session-loop", ".", "root", ["ZzC02SessionLoop"], params={"GOSTUB": 1, "CHANMODEL": 1}, extras=_EXTRAS),
